@@ -194,6 +194,8 @@ def restyle_calls(fn, ref_fn, sigs):
     parameters either way).  Only callees whose name denotes one signature in the tree are touched.'''
     def cname(c):
         f = c.func
+        if isinstance(f, ast.Attribute) and isinstance(f.value, ast.Name) and ('%s.%s' % (f.value.id, f.attr)) in sigs:
+            return '%s.%s' % (f.value.id, f.attr)
         return f.id if isinstance(f, ast.Name) else (f.attr if isinstance(f, ast.Attribute) else None)
     style = {}      # callee -> set of parameters the reference passes by keyword
     seen = set()
